@@ -531,8 +531,11 @@ def setup():
     rc, out = coq_make([], timeout=3000)
     print(out[-3000:])
     if rc != 0:
-        print("setup: coq build failed")
-        return 1
+        # every check rebuilds its own targets and reports its own failures: a file that does not
+        # build must not prevent the other properties from being checked
+        print("setup: some Coq files did not build (the checks that need them will report it):")
+        for fl in failing_lemmas(out)[:20]:
+            print("   %s:%s %s" % (fl["file"], fl["line"], fl["lemma"]))
     hrc, hout = build_harness()
     if hrc != 0:
         print(hout)
